@@ -70,7 +70,7 @@ func (b *builder) buildField(obj *Object, field *ast.FieldDefinition) (*Field, e
 
 	if err = b.bindField(obj, &f); err != nil {
 		f.IsResolver = true
-		if errors.Is(err, config.ErrTypeNotFound) {
+		if errors.Is(err, config.ErrTypeNotFound) || f.TypeReference == nil {
 			return nil, err
 		}
 		log.Println(err.Error())
